@@ -21,8 +21,8 @@ REGISTRY = {
              explanation='PROVED: every grouping the carvers ever test is a contiguous partition of the ordered base modalities (enumerator soundness). BOUNDED: boundaries strictly '
                          'increasing with +inf last, ordinal groups are consecutive runs of the user ranking, categorical leaders in target-rate order, transform is a non-decreasing '
                          'right-closed step function on probes (boundaries, nextafter neighbours, midpoints, +-1e300), fitted carver groups contiguous.'),
- 'C04': dict(level='other', P=[('contracts.labels', None)], R=['rtc.battery_C04'],
-             explanation='PROVED: _get_labels_per_values builds, for every feature, a label table defined exactly on the known values in which all members of a group share one label, float labels are the rank of the group, a qualitative str label is the leader, and distinct groups get distinct labels (three nested loop invariants; get_labels assumed). BOUNDED: for every fitted object (all discretizer classes, carvers, objects rebuilt from JSON, re-indexed frames) and every training row the output is the label of '
+ 'C04': dict(level='other', P=[('contracts.labels', None), ('contracts.type_discretizers', None)], R=['rtc.battery_C04'],
+             explanation='PROVED: _get_labels_per_values builds, for every feature, a label table defined exactly on the known values in which all members of a group share one label, float labels are the rank of the group, a qualitative str label is the leader, and distinct groups get distinct labels (three nested loop invariants; get_labels assumed); type_discretizers.fit_feature groups every raw value under its string form (str / int / is_integer assumed symbols; string forms assumed pairwise distinct and not themselves raw values). BOUNDED: for every fitted object (all discretizer classes, carvers, objects rebuilt from JSON, re-indexed frames) and every training row the output is the label of '
                          'the unique group containing the value; distinct groups have distinct labels; float labels are ranks; missing-value handling per dropna.'),
  'C05': dict(level='other', P=[], R=['rtc.battery_C05'],
              explanation='BOUNDED: transform of unseen data (finite numbers far outside / at the edges of the training range, unseen categories with and without default group, missing values '
